@@ -19,13 +19,13 @@ try:
     env = dict(os.environ, VERIF_REPO=wt, VERIF_WORK=f"{wt}/vwork", VERIF_EVID=f"{wt}/vevid")
     env.setdefault("VERIF_JOBS", "6")     # several of these run side by side
     for p in props:
-        r = subprocess.run([f"{snap}/check", p, tier], cwd=snap, capture_output=True, text=True, env=env)
+        r = subprocess.run([f"{snap}/check", p, tier], cwd=snap, capture_output=True, text=True, env=env, stdin=subprocess.DEVNULL)
         if r.returncode == 2:
             # keep the evidence of a tool error, and try once more (two cargo builds started in the same second
             # have been seen to fail spuriously)
             os.makedirs("/verif/work", exist_ok=True)
             open(f"/verif/work/mutest_{seed}_{p}.log", "w").write(r.stdout[-20000:] + "\n---stderr---\n" + r.stderr[-20000:])
-            r = subprocess.run([f"{snap}/check", p, tier], cwd=snap, capture_output=True, text=True, env=env)
+            r = subprocess.run([f"{snap}/check", p, tier], cwd=snap, capture_output=True, text=True, env=env, stdin=subprocess.DEVNULL)
         viol = [l for l in r.stdout.splitlines() if l.startswith("VIOLATION")]
         verdict = "CAUGHT" if r.returncode == 1 and viol else ("TOOLERR" if r.returncode == 2 else "MISSED")
         print(f"{seed} vs {p} ({tier}): {verdict} rc={r.returncode} violations={len(viol)}")
